@@ -56,6 +56,11 @@ pub struct Verdict {
     // observation only
     pub hits: usize,
     pub hit_cats: u32,
+    pub redirect_candidates: usize,
+    pub redirect_exceptions: usize,
+    pub removeparam_hits: usize,
+    pub csp_hits: usize,
+    pub csp_exception_hits: usize,
 }
 
 pub fn categorize(f: &NetworkFilter, tag: &Option<String>) -> Cat {
@@ -149,8 +154,16 @@ impl Scan {
             csp: None,
             hits: 0,
             hit_cats: 0,
+            redirect_candidates: 0,
+            redirect_exceptions: 0,
+            removeparam_hits: 0,
+            csp_hits: 0,
+            csp_exception_hits: 0,
         };
-        v.csp = self.csp(rq, tags);
+        let (csp, csp_hits, csp_exc) = self.csp_detail(rq, tags);
+        v.csp = csp;
+        v.csp_hits = csp_hits;
+        v.csp_exception_hits = csp_exc;
         if !rq.is_supported {
             v.redirect_ok.insert(None);
             return v;
@@ -191,6 +204,9 @@ impl Scan {
         // redirect: highest priority non-exception redirect whose modifier text is not the
         // modifier text of a matching redirect exception
         let exc_mods: Vec<&String> = red.iter().filter(|(e, _)| *e).map(|(_, m)| m).collect();
+        v.redirect_exceptions = exc_mods.len();
+        v.redirect_candidates = red.len() - exc_mods.len();
+        v.removeparam_hits = rp.len();
         let mut best: Option<i32> = None;
         let mut names: BTreeSet<String> = BTreeSet::new();
         for (e, m) in &red {
@@ -232,9 +248,15 @@ impl Scan {
     }
 
     pub fn csp(&mut self, rq: &Request, tags: &HashSet<String>) -> Option<BTreeSet<String>> {
+        self.csp_detail(rq, tags).0
+    }
+
+    /// (directive set, matching csp rules, matching csp exceptions)
+    pub fn csp_detail(&mut self, rq: &Request, tags: &HashSet<String>) -> (Option<BTreeSet<String>>, usize, usize) {
         if rq.request_type != RequestType::Document && rq.request_type != RequestType::Subdocument {
-            return None;
+            return (None, 0, 0);
         }
+        let (mut n_hits, mut n_exc) = (0usize, 0usize);
         let mut on = BTreeSet::new();
         let mut off = BTreeSet::new();
         let mut blanket = false;
@@ -256,6 +278,10 @@ impl Scan {
                 continue;
             }
             any = true;
+            n_hits += 1;
+            if r.f.is_exception() {
+                n_exc += 1;
+            }
             match (r.f.modifier_option.as_ref(), r.f.is_exception()) {
                 (Some(d), false) => {
                     on.insert(d.clone());
@@ -268,13 +294,13 @@ impl Scan {
             }
         }
         if !any || blanket {
-            return None;
+            return (None, n_hits, n_exc);
         }
         let d: BTreeSet<String> = on.difference(&off).cloned().collect();
         if d.is_empty() {
-            None
+            (None, n_hits, n_exc)
         } else {
-            Some(d)
+            (Some(d), n_hits, n_exc)
         }
     }
 }
